@@ -92,6 +92,7 @@ POOL = {
     "describe": "acdnt", "cov": "acden", "corr": "acden", "len": "abcdetknm",
 }
 NUMERIC = "acdn"
+PLAIN = "acde"
 NUMBOOL = "acdnem"
 WIDE = "abcdetknm"
 CLASS = {"a": None, "c": None, "d": None, "e": None, "n": "nullable", "m": "nullable", "t": "datetime",
@@ -197,21 +198,29 @@ def _rand_case(rng):
             case["col2"] = rng.choice(POOL[op])
     else:
         u = rng.random()
-        if op in ("describe", "cov", "corr") or u < 0.55:
-            pool = NUMBOOL if op not in ("describe", "nlargest", "nsmallest") else NUMERIC
-            cols = rng.sample(pool, rng.randint(1, min(4, len(pool))))
-        elif u < 0.8:
-            cols = rng.sample(wide, rng.randint(2, len(wide)))
-            if op in NUMONLY_OPS:
-                kw["numeric_only"] = True
+        # frames: plain columns (int64 / float-NaN / float / bool) plus AT MOST ONE column of a special class
+        # (nullable, datetime, str, categorical) - every class is covered, their cross products are not multiplied -
+        # or a wide random subset filtered by numeric_only=True
+        special = "nm" if op in ("describe", "cov", "corr", "nlargest", "nsmallest") else "nmtbk"
+        if op in ORDER_OPS:
+            special = special.replace("k", "")
+        if u < 0.75 or op not in NUMONLY_OPS:
+            cols = rng.sample(PLAIN, rng.randint(1, 4))
+            if rng.random() < 0.5:
+                sp = rng.choice(special)
+                if rng.random() < 0.2:
+                    cols = [sp]
+                else:
+                    cols.insert(rng.randint(0, len(cols)), sp)
         else:
-            cols = rng.sample(wide, rng.randint(1, 4))
+            cols = rng.sample(wide, rng.randint(2, len(wide)))
+            kw["numeric_only"] = True
         if op in AXIS1_OPS and rng.random() < 0.3:
             # row-wise: only columns on which the reduction is defined column-wise too (pandas answers mixed
             # str/datetime/categorical rows through object coercion, and refuses the same program on an empty frame)
             kw["axis"] = 1
             cols = [c for c in cols if c in NUMBOOL] or rng.sample(NUMBOOL, 2)
-        case["cols"] = sorted(cols, key=WIDE.index) if rng.random() < 0.7 else cols
+        case["cols"] = sorted(cols, key=WIDE.index) if rng.random() < 0.6 else cols
         if op in NUMONLY_OPS and "numeric_only" not in kw and rng.random() < 0.3:
             kw["numeric_only"] = rng.random() < 0.5
     if op in SKIPNA_OPS and rng.random() < 0.6:
@@ -755,7 +764,8 @@ def _attribute(case, out):
             cuts = sorted({min(max(0, c), n) for c in part.get("cuts", [])} - {0, n})
             if facts["empty_part"] and not _repro(_variant(cur, part={"how": part["how"], "cuts": cuts}), s):
                 feats.append("empty-partition")         # gone when the empty partitions are dropped
-            elif facts["allna_part"] and not _repro(_variant(cur, part=_merge_allna(cur, facts)), s):
+            elif facts["allna_part"] and not s.endswith(":combine|aggregate") and \
+                    not _repro(_variant(cur, part=_merge_allna(cur, facts)), s):
                 feats.append("all-NA-partition")        # gone when every all-NA partition is merged into a neighbour
             else:
                 feats.append("multi-partition")
